@@ -1652,27 +1652,61 @@ func runC02(c *Ctx) {
 	c02SelfTest(c)
 	c02LegitPrograms(c)
 	c02KnownRepros(c)
-	c02RecoverProbe(c)
 }
 
-// c02RecoverProbe: user code panics inside MarshalEncode, the owner of the Encoder recovers and goes on.  Not part of
-// C02 (no invalid output results: the Encoder answers with an error), recorded as an observation for the evidence.
-func c02RecoverProbe(c *Ctx) {
-	var w c02Writer
-	enc := jsontext.NewEncoder(&w)
-	enc.WriteToken(jsontext.BeginArray)
+// c02RecoverPrograms: user code panics inside a marshal call, somebody recovers and goes on with the same Encoder.
+// Both programs worked before the floor existed and must keep working (the floor is restored with defer, d44ddf8).
+func c02RecoverPrograms(c *Ctx) {
+	check := func(name, want string, out []byte, errs ...error) {
+		c.Hit("legit-programs")
+		for _, err := range errs {
+			if err != nil {
+				c.Violate("legit-program-rejected", "legit/"+name, out, map[string]any{"want": want, "got": string(out), "err": err.Error()})
+				return
+			}
+		}
+		if string(out) != want {
+			c.Violate("legit-program-rejected", "legit/"+name, out, map[string]any{"want": want, "got": string(out)})
+		}
+	}
+	// 1. the application owns the Encoder and recovers from the panic of a MarshalJSONTo
+	if p := guard(func() {
+		var w c02Writer
+		enc := jsontext.NewEncoder(&w)
+		e0 := enc.WriteToken(jsontext.BeginArray)
+		func() {
+			defer func() { recover() }()
+			jsonv2.MarshalEncode(enc, jsonv2.MarshalerTo(c02Panicker{}))
+		}()
+		e1 := enc.WriteToken(jsontext.Int(1))
+		e2 := enc.WriteToken(jsontext.EndArray)
+		check("recover/application-owned-encoder", "[1]\n", w.b, e0, e1, e2)
+	}); p != nil {
+		c.Panic("legit/recover/application-owned-encoder", nil, p, nil)
+	}
+	// 2. a MarshalJSONTo recovers from the panic of a nested marshal call and closes the array IT opened
+	if p := guard(func() {
+		out, err := jsonv2.Marshal([]c02Recoverer{{c02Panicker{}}})
+		check("recover/inside-method", "[[null]]", out, err)
+	}); p != nil {
+		c.Panic("legit/recover/inside-method", nil, p, nil)
+	}
+}
+
+type c02Recoverer struct{ inner any }
+
+func (q c02Recoverer) MarshalJSONTo(e *jsontext.Encoder) error {
+	if err := e.WriteToken(jsontext.BeginArray); err != nil {
+		return err
+	}
 	func() {
 		defer func() { recover() }()
-		jsonv2.MarshalEncode(enc, jsonv2.MarshalerTo(c02Panicker{}))
+		jsonv2.MarshalEncode(e, q.inner)
 	}()
-	e1 := enc.WriteToken(jsontext.Int(1))
-	e2 := enc.WriteToken(jsontext.EndArray)
-	if e1 == nil && e2 == nil && c02Validate(w.b, false, false).OK {
-		c.Hit("observation:encoder-usable-after-recovered-user-panic")
-	} else {
-		c.Hit("observation:encoder-refuses-own-container-end-after-recovered-user-panic")
-		c.Note("after a recovered panic of a MarshalJSONTo inside MarshalEncode the Encoder refuses the `]` of the array its owner opened (floor not restored): %v", e2)
+	if err := e.WriteToken(jsontext.Null); err != nil {
+		return err
 	}
+	return e.WriteToken(jsontext.EndArray)
 }
 
 type c02Panicker struct{}
@@ -1744,6 +1778,7 @@ func c02LegitPrograms(c *Ctx) {
 			c.Violate("legit-program-rejected", "legit/"+t.name, out, map[string]any{"want": t.want, "got": string(out), "err": fmt.Sprint(err)})
 		}
 	}
+	c02RecoverPrograms(c)
 }
 
 // c02Judge evaluates the predicate for the runs of one case.
